@@ -27,7 +27,7 @@ MODES = ['left', 'linear', 'right', 'hull']
 def cases(draw, tier):
     big = tier != 'quick'
     c = draw(S.curves(12, 60 if not big else 300,
-                      families=['mono_dec', 'mono_dec', 'convex', 'convex', 'noise', 'plateau', 'quant', 'steps',
+                      families=['mono_dec', 'mono_dec', 'convex', 'convex', 'noise', 'plateau', 'ulp', 'quant', 'steps',
                                 'pwl_dyadic', 'pwl_rational', 'trace', 'trace', 'concave', 'repo', 'outlier'],
                       big_n=160 if not big else 600))
     pts = c['pts']
